@@ -206,3 +206,48 @@ def check_node_construction(ctx, env, rule: str, consequence: str):
                    f"holding the values given; {consequence}") if bad else "every path of __new__ creates a fresh instance of the class",
                   ci.module.loc(fn))
     ctx.analysed["node classes whose construction was checked"] = n
+
+
+MUTATORS = {"append", "extend", "insert", "add", "update", "setdefault", "pop", "popitem", "remove", "discard", "clear", "sort", "reverse", "appendleft"}
+
+
+def check_mutable_defaults(ctx, env, module_prefixes, rule: str, consequence: str):
+    """A parameter whose default is a list / dict / set display (or list()/dict()/set()) and that the body mutates is one object
+    shared by every call that omits the argument: what one call leaves in it is seen by the next. A mutable default that is
+    only read is harmless and is not reported."""
+    repo = env.repo
+    n = 0
+    for mname, m in repo.modules.items():
+        if not any(mname == p or mname.startswith(p + ".") for p in module_prefixes):
+            continue
+        for fn in [x for x in ast.walk(m.tree) if isinstance(x, (ast.FunctionDef, ast.AsyncFunctionDef))]:
+            a = fn.args
+            pos = a.posonlyargs + a.args
+            pairs = list(zip(pos[len(pos) - len(a.defaults):], a.defaults)) + [(p, d) for p, d in zip(a.kwonlyargs, a.kw_defaults) if d is not None]
+            for p, d in pairs:
+                mutable = isinstance(d, (ast.List, ast.Dict, ast.Set, ast.ListComp, ast.DictComp, ast.SetComp)) or (
+                    isinstance(d, ast.Call) and isinstance(d.func, ast.Name) and d.func.id in ("list", "dict", "set", "defaultdict", "deque", "OrderedDict"))
+                if not mutable:
+                    continue
+                n += 1
+                names = {p.arg}
+                # simple aliases: x = param
+                for st in ast.walk(fn):
+                    if isinstance(st, ast.Assign) and isinstance(st.value, ast.Name) and st.value.id in names:
+                        names |= {t.id for t in st.targets if isinstance(t, ast.Name)}
+                hit = None
+                for x in ast.walk(fn):
+                    if isinstance(x, ast.Call) and isinstance(x.func, ast.Attribute) and x.func.attr in MUTATORS and isinstance(x.func.value, ast.Name) \
+                            and x.func.value.id in names:
+                        hit = x
+                    elif isinstance(x, (ast.Subscript,)) and isinstance(x.ctx, (ast.Store, ast.Del)) and isinstance(x.value, ast.Name) and x.value.id in names:
+                        hit = x
+                    elif isinstance(x, ast.AugAssign) and isinstance(x.target, ast.Name) and x.target.id in names:
+                        hit = x
+                    if hit is not None:
+                        break
+                ctx.check(hit is None, rule, f"{mname}.{fn.name}|{p.arg}",
+                          f"parameter `{p.arg}` of {fn.name} defaults to the mutable `{ast.unparse(d)}` and the body changes it "
+                          f"(`{ast.unparse(hit)[:60] if hit is not None else ''}`): calls that omit the argument share one object; {consequence}",
+                          m.loc(hit if hit is not None else fn))
+    return n
